@@ -251,3 +251,65 @@ Print Assumptions week_walk_terminates_refuted.
 Theorem default_week_configuration_consistent : week_day C12_WEEK_STARTS_AT_DEFAULT /\ C12_WEEK_ENDS_AT_DEFAULT = we_of C12_WEEK_STARTS_AT_DEFAULT.
 Proof. exact default_week_configuration_consistent_l. Qed.
 Print Assumptions default_week_configuration_consistent.
+
+(* ------------------------------------------------------------ the hand model IS the code (machine translation, Gen/StartEndGlue.v) *)
+(* DateTime._start_of_<unit> / _end_of_<unit> (second .. century, week), subtract, next / previous are TRANSLATED from /repo's
+   src/pendulum/datetime.py on every run (tools/vlib/gens/g81_start_end_glue.py) ON TOP OF the translated timezone glue Gen/TzGlue.v
+   (set / at / add / create are called, not re-modelled).  obj_of v tzo is the object of the model value v when tz_matches v tzo (tzinfo
+   None for a naive value, else a timezone object with the value's table and class); res_of maps a model result to the object. *)
+From PV Require Import Model.TzGlueObj Gen.TzGlue Proofs.TzGlueFacts Model.StartEndGlueObj Gen.StartEndGlue Proofs.StartEndGlueFacts.
+
+(* DateTime.create(fields, tz=self.tz, fold=self.fold), valid fields or not, = the model primitive dt_set *)
+Theorem model_is_code_dt_set : forall v tzo y m d h mi s us, tz_matches v tzo ->
+  glue_DateTime_create y m d h mi s us tzo (Z.b2z (v_fold v)) false = res_of tzo (dt_set v y m d h mi s us).
+Proof. exact glue_create_dt_set. Qed.
+Print Assumptions model_is_code_dt_set.
+
+(* second, minute, hour: self.set(<the smaller fields>) with the keyword defaults of the translated set *)
+Theorem model_is_code_start_of_second_minute_hour : forall v tzo, tz_matches v tzo ->
+  sglue_start_of_second (obj_of v tzo) = res_of tzo (set_from v 0 true) /\ sglue_end_of_second (obj_of v tzo) = res_of tzo (set_from v 0 false) /\
+  sglue_start_of_minute (obj_of v tzo) = res_of tzo (set_from v 1 true) /\ sglue_end_of_minute (obj_of v tzo) = res_of tzo (set_from v 1 false) /\
+  sglue_start_of_hour (obj_of v tzo) = res_of tzo (set_from v 2 true) /\ sglue_end_of_hour (obj_of v tzo) = res_of tzo (set_from v 2 false).
+Proof.
+  exact (fun v tzo TM => conj (sglue_start_of_second_eq v tzo TM) (conj (sglue_end_of_second_eq v tzo TM) (conj (sglue_start_of_minute_eq v tzo TM)
+        (conj (sglue_end_of_minute_eq v tzo TM) (conj (sglue_start_of_hour_eq v tzo TM) (sglue_end_of_hour_eq v tzo TM)))))).
+Qed.
+Print Assumptions model_is_code_start_of_second_minute_hour.
+
+(* day: self.at(0, 0, 0, 0) / self.at(23, 59, 59, 999999) through the translated at *)
+Theorem model_is_code_start_of_day : forall v tzo, tz_matches v tzo ->
+  sglue_start_of_day (obj_of v tzo) = res_of tzo (dt_start_of_day v) /\ sglue_end_of_day (obj_of v tzo) = res_of tzo (dt_end_of_day v).
+Proof. exact (fun v tzo TM => conj (sglue_start_of_day_eq v tzo TM) (sglue_end_of_day_eq v tzo TM)). Qed.
+Print Assumptions model_is_code_start_of_day.
+
+(* month, year, decade, century: self.set(year, month, day, h, m, s, us) with the year arithmetic *)
+Theorem model_is_code_start_of_month_year_decade_century : forall v tzo, tz_matches v tzo ->
+  sglue_start_of_month (obj_of v tzo) = res_of tzo (py_dt_start_of_month v) /\ sglue_end_of_month (obj_of v tzo) = res_of tzo (py_dt_end_of_month v) /\
+  sglue_start_of_year (obj_of v tzo) = res_of tzo (py_dt_start_of_year v) /\ sglue_end_of_year (obj_of v tzo) = res_of tzo (py_dt_end_of_year v) /\
+  sglue_start_of_decade (obj_of v tzo) = res_of tzo (py_dt_start_of_decade v) /\ sglue_end_of_decade (obj_of v tzo) = res_of tzo (py_dt_end_of_decade v) /\
+  sglue_start_of_century (obj_of v tzo) = res_of tzo (py_dt_start_of_century v) /\ sglue_end_of_century (obj_of v tzo) = res_of tzo (py_dt_end_of_century v).
+Proof.
+  exact (fun v tzo TM => conj (sglue_start_of_month_eq v tzo TM) (conj (sglue_end_of_month_eq v tzo TM) (conj (sglue_start_of_year_eq v tzo TM)
+        (conj (sglue_end_of_year_eq v tzo TM) (conj (sglue_start_of_decade_eq v tzo TM) (conj (sglue_end_of_decade_eq v tzo TM)
+        (conj (sglue_start_of_century_eq v tzo TM) (sglue_end_of_century_eq v tzo TM)))))))).
+Qed.
+Print Assumptions model_is_code_start_of_month_year_decade_century.
+
+(* add(days=±1) / subtract(days=1) = step_day; next / previous (a given weekday, keep_time=False): the statements before the loop, the loop
+   test and the loop step are translated, the `while` skeleton is a template with the model's fuel: = dt_previous / dt_next *)
+Theorem model_is_code_previous_next : forall v tzo wd, tz_matches v tzo -> wall_in_range (v_W v) = true -> 0 <= wd <= 6 ->
+  sglue_previous (obj_of v tzo) wd = vres_of v tzo (dt_previous v wd) /\ sglue_next (obj_of v tzo) wd = vres_of v tzo (dt_next v wd).
+Proof. intros; split; [apply sglue_previous_eq|apply sglue_next_eq]; assumption. Qed.
+Print Assumptions model_is_code_previous_next.
+
+(* week: pendulum._WEEK_STARTS_AT / _WEEK_ENDS_AT are parameters; every configuration *)
+Theorem model_is_code_start_of_week : forall v tzo w, tz_matches v tzo -> wall_in_range (v_W v) = true -> 0 <= w <= 6 ->
+  sglue_start_of_week (obj_of v tzo) w = res_of tzo (dt_start_of_week w v) /\ sglue_end_of_week (obj_of v tzo) w = res_of tzo (dt_end_of_week w v).
+Proof. intros; split; [apply sglue_start_of_week_eq|apply sglue_end_of_week_eq]; assumption. Qed.
+Print Assumptions model_is_code_start_of_week.
+
+(* the whole family through the getattr dispatch of start_of / end_of (the dispatch itself is a recognised shape, checked by the generator) *)
+Theorem model_is_code_start_of : forall v tzo w u, tz_matches v tzo -> wall_in_range (v_W v) = true -> 0 <= w <= 6 ->
+  sglue_start_of w u (obj_of v tzo) = res_of tzo (dt_start_of w u v) /\ sglue_end_of w u (obj_of v tzo) = res_of tzo (dt_end_of w u v).
+Proof. intros; split; [apply sglue_start_of_eq|apply sglue_end_of_eq]; assumption. Qed.
+Print Assumptions model_is_code_start_of.
